@@ -47,8 +47,8 @@ for pid in pids:
     for l in re.findall(r"(?m)^\s*((?:fixed|known):.*)$", section("KNOWN_FINDINGS")):
         for h, nh in remap.items():
             l = re.sub(rf"\b{h}\b", nh, l)
-        mm = re.match(r"fixed:\s+property=(\S+)\s+(\S+)", l)
-        if l not in kf and not (mm and re.search(rf"(?m)^fixed:\s+property={mm.group(1)}\s+{mm.group(2)}\b", kf)):
+        mm = re.match(r"fixed:\s+property=(\S+)\s+(\S+)\s+(.{0,40})", l)
+        if l not in kf and not (mm and re.search(rf"(?m)^fixed:\s+property={mm.group(1)}\s+{mm.group(2)}\s+{re.escape(mm.group(3))}", kf)):
             kf += l + "\n"
     d = section("DESIGN")
     if d:
